@@ -112,6 +112,7 @@ def main():
     os.makedirs(os.path.dirname(OUT), exist_ok=True)
     if not os.path.exists(OUT) or open(OUT).read() != text:
         open(OUT, "w").write(text)
+        print("gen_consts: CHANGED")
 
 
 if __name__ == "__main__":
